@@ -149,8 +149,11 @@ func main() {
 		res.Rule = "a mixed workload (queued, written and awaiting calls, a 400 kB response being read, a stream, a connection loss with calls in the reconnect window and after) with the closer fired at sampled occurrences (first, last, random) of each of 25 yield-point sites (hook gates), plus the sweep-versus-executor schedule with the closer as observer and closers of one-shot clients; distinct = (site, occurrence)"
 		err = corr.CloseEverywhere(d, res, *seed, thorough)
 	case "C05":
-		res.Rule = "backoff: grid of (minDelay, maxDelay) x attempts -2..N x repetitions (implementation's own jitter); distinct = (min, max, attempt); non-trivial = delay still growing (or every 50th capped attempt)"
+		res.Rule = "backoff: grid of (minDelay, maxDelay) x attempts -2..N x repetitions (implementation's own jitter); distinct = (min, max, attempt); non-trivial = delay still growing (or every 50th capped attempt); plus reconnect scenarios through the proxy (outage with k refused redials x error mapping on/off with an untagged and a retry-tagged call in flight and a call issued in the window; a server that drops every connection right after the upgrade; a no-reconnect client; keepalive after a heal): redial events with hook times replayed through Jrpc.Redial, retry attempts compared with Jrpc.Redial.retryLoop"
 		err = c05.RunBackoff(d, res, thorough, corpus)
+		if err == nil && *replay == "" {
+			err = c05.Scenarios(d, res, *seed, thorough)
+		}
 	case "C10":
 		res.Rule = "hostile frames from the property's descriptor grid (control methods x params shapes x element values x id types, responses never requested, calls of every error class, undecodable/binary/empty buffers) sent singly and in random sequences to a real server and, from a fake server, to a real client, each in a child process; body sizes L-1..L+2 for 11 limits; distinct = distinct frame sequence; every case is non-trivial (hostile input reaches the executor)"
 		err = c10.Run(d, res, *seed, thorough, corpus)
